@@ -1,7 +1,7 @@
 //! C04, layer (a): single-threaded task / join-handle lifecycle on the real `compio_executor::Executor`.
 //!
 //! Every program up to a depth over {Spawn(kind), Wake(i), Tick, PollHandle(i), DropHandle(i),
-//! Detach(i), DropExecutor} with at most 3 tasks and `max_interval` in {1, 2, 61} is executed on
+//! Detach(i), Cancel(i), PollCancel(i), DropExecutor} with at most 3 tasks and `max_interval` in {1, 2, 61} is executed on
 //! the real executor with instrumented futures and outputs.
 use std::{
     cell::{Cell, RefCell},
@@ -172,7 +172,13 @@ enum HState {
     Taken,
     Dropped,
     Detached,
+    /// `cancel()` was called; its future has not resolved yet
+    Cancelling,
+    /// `cancel()` resolved
+    CancelDone,
 }
+
+type CancelFut = Pin<Box<dyn Future<Output = Option<Token>>>>;
 
 fn run_program(ch: &mut Chooser, max_interval: u32, depth: usize, log: &mut Vec<String>) -> Result<String, (String, String)> {
     let fail = |k: &str, d: String| -> Result<String, (String, String)> { Err((k.to_string(), d)) };
@@ -191,8 +197,23 @@ fn run_program(ch: &mut Chooser, max_interval: u32, depth: usize, log: &mut Vec<
     let mut hstate: Vec<HState> = Vec::new();
     let mut kinds: Vec<Kind> = Vec::new();
     let mut got_result: Vec<Option<&'static str>> = Vec::new();
-    let mut hwakers: Vec<Arc<CountWaker>> = Vec::new();
+    // every poll of a handle uses a FRESH waker; the one of the latest Pending poll must be invoked
+    // when the task completes (a handle may be polled from different contexts, e.g. select / hand-over)
+    let mut hwakers: Vec<Option<Arc<CountWaker>>> = Vec::new();
     let mut cancelled_at_tick: Vec<Option<usize>> = Vec::new();
+    let mut cancel_futs: Vec<Option<CancelFut>> = Vec::new();
+    let fresh = || Arc::new(CountWaker(AtomicUsize::new(0)));
+    // judge what a cancel() future yielded
+    let judge_cancel = |i: usize, r: &Option<Token>, finished: bool, kind: Kind, exe_alive: bool| -> Result<&'static str, (String, String)> {
+        match r {
+            Some(_) if !finished => Err(("result-before-finish".to_string(), format!("cancel() of task {i} yielded an output before the task finished"))),
+            Some(_) => Ok("CancelSome"),
+            None if finished && kind != Kind::PanicAt2 && exe_alive => {
+                Err(("cancel-discards-output".to_string(), format!("task {i} had finished (output not taken) when cancel() was called, but cancel().await yielded None: the output never reached the handle")))
+            }
+            None => Ok("CancelNone"),
+        }
+    };
     for _ in 0..depth {
         let n = kinds.len();
         // menu: 0 stop | spawn kinds (if < 3 tasks) | tick | drop executor | per task: wake, poll, drop, detach
@@ -214,6 +235,10 @@ fn run_program(ch: &mut Chooser, max_interval: u32, depth: usize, log: &mut Vec<
                 menu.push((5, i));
                 menu.push((6, i));
                 menu.push((7, i));
+                menu.push((8, i));
+            }
+            if hstate[i] == HState::Cancelling {
+                menu.push((9, i));
             }
         }
         let (op, arg) = menu[ch.pick(menu.len())];
@@ -229,8 +254,9 @@ fn run_program(ch: &mut Chooser, max_interval: u32, depth: usize, log: &mut Vec<
                 hstate.push(HState::Held);
                 kinds.push(kind);
                 got_result.push(None);
-                hwakers.push(Arc::new(CountWaker(AtomicUsize::new(0))));
+                hwakers.push(None);
                 cancelled_at_tick.push(None);
+                cancel_futs.push(None);
                 log.push(format!("spawn({kind:?})"));
             }
             2 => {
@@ -261,11 +287,14 @@ fn run_program(ch: &mut Chooser, max_interval: u32, depth: usize, log: &mut Vec<
             }
             5 => {
                 let mut h = sh.handles.borrow_mut()[arg].take().unwrap();
-                let w = Waker::from(hwakers[arg].clone());
+                let cw = fresh();
+                let w = Waker::from(cw.clone());
                 let p = vcore::catch(|| Pin::new(&mut h).poll(&mut Context::from_waker(&w)));
+                hwakers[arg] = None;
                 match p {
                     Err(p) => return fail("handle-poll-panics", p),
                     Ok(Poll::Pending) => {
+                        hwakers[arg] = Some(cw);
                         log.push(format!("poll-handle({arg})->Pending"));
                         if sh.tasks.borrow()[arg].finished.get() {
                             return fail("result-not-delivered", format!("task {arg} has finished but its handle is Pending"));
@@ -306,12 +335,45 @@ fn run_program(ch: &mut Chooser, max_interval: u32, depth: usize, log: &mut Vec<
                 sh.tasks.borrow()[arg].runnable_since.set(None);
                 log.push(format!("drop-handle({arg})"));
             }
-            _ => {
+            7 => {
                 let h = sh.handles.borrow_mut()[arg].take().unwrap();
                 h.detach();
                 hstate[arg] = HState::Detached;
+                hwakers[arg] = None;
                 log.push(format!("detach({arg})"));
             }
+            8 | 9 => {
+                let t = sh.tasks.borrow()[arg].clone();
+                let mut f: CancelFut = if op == 8 {
+                    let h = sh.handles.borrow_mut()[arg].take().unwrap();
+                    hwakers[arg] = None;
+                    if !t.finished.get() {
+                        cancelled_at_tick[arg] = Some(sh.tick_no.get());
+                    }
+                    t.runnable_since.set(None);
+                    hstate[arg] = HState::Cancelling;
+                    Box::pin(h.cancel())
+                } else {
+                    cancel_futs[arg].take().unwrap()
+                };
+                let finished_at_call = t.finished.get();
+                let w = Waker::from(fresh());
+                match vcore::catch(|| f.as_mut().poll(&mut Context::from_waker(&w))) {
+                    Err(p) => return fail("cancel-poll-panics", p),
+                    Ok(Poll::Pending) => {
+                        log.push(format!("{}({arg})->Pending", if op == 8 { "cancel" } else { "poll-cancel" }));
+                        cancel_futs[arg] = Some(f);
+                    }
+                    Ok(Poll::Ready(r)) => {
+                        let what = judge_cancel(arg, &r, finished_at_call, kinds[arg], exe.is_some())?;
+                        log.push(format!("{}({arg})->{what}", if op == 8 { "cancel" } else { "poll-cancel" }));
+                        got_result[arg] = Some(what);
+                        hstate[arg] = HState::CancelDone;
+                        drop(r);
+                    }
+                }
+            }
+            _ => unreachable!(),
         }
         // handle dropped by a sibling task
         for i in 0..kinds.len() {
@@ -329,6 +391,15 @@ fn run_program(ch: &mut Chooser, max_interval: u32, depth: usize, log: &mut Vec<
         }
         let n_tasks = kinds.len();
         for (i, t) in sh.tasks.borrow().iter().enumerate() {
+            // the task completed (or panicked) while its handle was parked: the waker of the
+            // handle's latest poll must have been invoked
+            if t.finished.get() && hstate[i] == HState::Held && !sh.in_tick.get() {
+                if let Some(cw) = &hwakers[i] {
+                    if cw.0.load(SeqCst) == 0 {
+                        return fail("join-waker-not-invoked", format!("task {i} has finished; its handle's latest poll returned Pending but the waker of that poll was never invoked (an older waker may have been)"));
+                    }
+                }
+            }
             if t.polled_after_finish.get() {
                 return fail("polled-after-finish", format!("task {i} polled after it returned Ready / panicked"));
             }
@@ -368,10 +439,20 @@ fn run_program(ch: &mut Chooser, max_interval: u32, depth: usize, log: &mut Vec<
     for (i, h) in remaining.into_iter().enumerate() {
         if let Some(mut h) = h {
             // a handle outliving the executor must resolve (value or cancellation), not hang or crash
-            let w = Waker::from(hwakers[i].clone());
+            let w = Waker::from(fresh());
             match vcore::catch(|| Pin::new(&mut h).poll(&mut Context::from_waker(&w))) {
                 Err(p) => return fail("handle-poll-panics", p),
                 Ok(Poll::Pending) => return fail("handle-hangs-after-executor-drop", format!("handle {i} is Pending after the executor was dropped")),
+                Ok(Poll::Ready(r)) => drop(r),
+            }
+        }
+    }
+    for (i, f) in cancel_futs.iter_mut().enumerate() {
+        if let Some(mut f) = f.take() {
+            let w = Waker::from(fresh());
+            match vcore::catch(|| f.as_mut().poll(&mut Context::from_waker(&w))) {
+                Err(p) => return fail("cancel-poll-panics", p),
+                Ok(Poll::Pending) => return fail("cancel-hangs-after-executor-drop", format!("cancel() of task {i} is Pending after the executor was dropped")),
                 Ok(Poll::Ready(r)) => drop(r),
             }
         }
@@ -435,6 +516,6 @@ pub fn run(args: Args) {
         }
     });
     rep.extra("bounds", json!({"program_depth": depth, "max_tasks": 3, "max_interval": [1, 2, 61], "task_kinds": format!("{KINDS:?}")}));
-    rep.rule("every program up to program_depth over {spawn(7 task kinds), wake, tick, poll-handle, drop-handle, detach, drop-executor} with <= 3 tasks x max_interval in {1,2,61} on the real single-threaded Executor; distinct outcomes = (handle states, poll counts, results) classes");
+    rep.rule("every program up to program_depth over {spawn(7 task kinds), wake, tick, poll-handle (fresh waker per poll), drop-handle, detach, cancel, poll-cancel, drop-executor} with <= 3 tasks x max_interval in {1,2,61} on the real single-threaded Executor; distinct outcomes = (handle states, poll counts, results) classes");
     rep.finish();
 }
